@@ -772,6 +772,16 @@ EXIT_SHAPES = {
     "async_in_sync": "async def f(a, b):\n    with a as x:\n        async with b as y:\n            g(x, y)\n",
 }
 
+# bodies long enough that jump / SETUP_* arguments need an EXTENDED_ARG prefix (>= 256 bytes on 3.9, >= 256 instructions on 3.10+)
+_LONG = "".join("        g(i)\n" for _ in range(90))
+EXIT_SHAPES.update({
+    "long_loop_then_with": "def f(cm, it):\n    for i in it:\n" + _LONG + "    with cm as x:\n        g(x)\n",
+    "long_with_body": "def f(cm, i):\n    with cm as x:\n" + _LONG,
+    "long_if_then_with": "def f(cm, c):\n    i = c\n    if c:\n" + _LONG + "    with cm as x:\n        g(x)\n",
+    "long_loop_then_async_with": "async def f(cm, it):\n    for i in it:\n" + _LONG + "    async with cm as x:\n        g(x)\n",
+    "long_with_in_long_loop": "def f(cm, it):\n    for i in it:\n" + _LONG + "        with cm as x:\n" + _LONG.replace("        g(i)", "            g(i)") + "        g(i)\n",
+})
+
 
 def _exit_sites():
     """per shape: bytecode, exception table, and every normal-path exit call site with the handler of the with statement it
